@@ -399,8 +399,15 @@ impl Scenario for EventsScenario {
             }
         }
         for c in 0..3 {
-            for a in disconnects(m, c, false) {
+            // subscribers may also die by having their task dropped (the broker then only notices
+            // when it next sends to them, e.g. when an event is emitted)
+            for a in disconnects(m, c, c != 0) {
                 out.push((a, true));
+            }
+        }
+        for c in 0..m.conns.len() {
+            if m.conns[c].state == CState::Zombie {
+                out.push((Action::Kick(c), true));
             }
         }
         out
@@ -818,6 +825,11 @@ impl CleanupScenario {
                     v.push(destroy_service(4, *sc));
                     v.push(emit_event(*sc, 1, payload_for(minor, 1)));
                 } else {
+                    if minor >= 20 && owner.map(|o| m.minor(o) < 20).unwrap_or(false) && m.calls.is_empty() {
+                        // an undecodable payload for an older peer: that peer's connection task
+                        // gives up, which is one more way for a connection to end
+                        v.push(call_function(1, *sc, 1, vec![0xff, 0xee]));
+                    }
                     if !m.calls.values().any(|call| call.caller == c && !call.aborted) && m.calls.len() < 2 {
                         v.push(call_function(0, *sc, 1, payload_for(minor, 2)));
                     }
@@ -1012,6 +1024,17 @@ impl Scenario for GatingScenario {
             unsubscribe_all_events(None, svc0),
             call_function2(1, svc0, 2, None, payload_for(minor, 1)),
             call_function2(1, svc0, 2, Some(7), payload_for(minor, 1)),
+            // the same kinds with cookies / serials the broker does not know: the gate comes first
+            abort_function_call(77),
+            create_service2(19, bogus(IdKind::Obj), svc_uuid(2), 1, None),
+            query_service_info(20, bogus(IdKind::Svc)),
+            subscribe_service(21, bogus(IdKind::Svc)),
+            unsubscribe_service(bogus(IdKind::Svc)),
+            subscribe_all_events(Some(22), bogus(IdKind::Svc)),
+            subscribe_all_events(None, svc0),
+            unsubscribe_all_events(Some(23), bogus(IdKind::Svc)),
+            unsubscribe_all_events(None, bogus(IdKind::Svc)),
+            call_function2(2, bogus(IdKind::Svc), 2, None, payload_for(minor, 1)),
             // never gated: must be served at every version
             sync(17),
             call_function(1, svc0, 2, payload_for(minor, 1)),
@@ -1149,6 +1172,10 @@ impl Scenario for AbuseScenario {
         v.push(send(v1, start_listener(7, sym::cid(IdKind::Lis, 0), 2)));
         if self.minors[0] >= 17 {
             v.push(send(v1, register_introspection(&[sym::type_id(1)])));
+            if self.minors[1] >= 17 {
+                // an introspection query of V2 is in flight to V1
+                v.push(send(v2, query_introspection(8, sym::type_id(1))));
+            }
         }
         v
     }
@@ -1159,11 +1186,33 @@ impl Scenario for AbuseScenario {
         // garbage payloads are not "well-formed for the sender's version": the no-1.20-encoding
         // monitor only speaks about well-formed payloads
         r.monitors.payload_monitor = false;
+        r.report_conversion_close = true;
     }
     fn final_check_everywhere(&self) -> bool {
         true
     }
     fn final_check(&self, r: &mut Runner, _depth: usize) -> Result<(), Viol> {
+        // the victims carry on with what they were doing and are served correctly
+        let (v1, v2) = (0usize, 1usize);
+        if r.model.is_live(v1) {
+            let qs: Vec<u32> = r.model.intro_queries.keys().copied().collect();
+            for t in qs {
+                if r.model.intro.values().any(|e| e.queried == Some((v1, t))) {
+                    r.apply(&send(v1, query_introspection_reply(t, true, vec![3, 7])))?;
+                }
+            }
+            let ts: Vec<u32> = r.model.calls.iter().filter(|(_, c)| r.model.svc_owner(&c.svc) == Some(v1)).map(|(t, _)| *t).collect();
+            for t in ts {
+                r.apply(&send(v1, call_function_reply(t, 0, payload_for(r.model.minor(v1), 4))))?;
+            }
+        }
+        if r.model.is_live(v2) {
+            let chans: Vec<U> = r.model.chans.iter().filter(|(_, c)| chan_end_owner(c.sender) == Some(v2)).map(|(k, _)| *k).collect();
+            for ch in chans {
+                r.apply(&send(v2, send_item(ch, payload_for(r.model.minor(v2), 6))))?;
+            }
+            r.apply(&send(v2, sync(903)))?;
+        }
         // the well-behaved probe connection is still served correctly
         if r.model.is_live(ABUSE_P) {
             r.apply(&send(ABUSE_P, sync(900)))?;
